@@ -228,7 +228,7 @@ func runC07BBox(c *Ctx) {
 				if merged {
 					return
 				}
-				if !(instrDominates(in2, in) || instrDominates(in, in2)) {
+				if !(instrDominates(in2, in) || (instrDominates(in, in2) && onEveryPathAfter(in, in2))) {
 					return
 				}
 				if c2, ok := in2.(ssa.CallInstruction); ok {
@@ -941,4 +941,37 @@ func appendedNonEmpty(v ssa.Value, visiting map[ssa.Value]bool) bool {
 		return len(x.Edges) > 0
 	}
 	return false
+}
+
+// onEveryPathAfter: starting after instruction a, every path that reaches a
+// return or re-enters a's own block (next loop iteration) passes through b.
+func onEveryPathAfter(a, b ssa.Instruction) bool {
+	if a.Block() == b.Block() {
+		return true // same block, b after a (checked by the caller via instrDominates)
+	}
+	seen := map[*ssa.BasicBlock]bool{}
+	work := append([]*ssa.BasicBlock{}, a.Block().Succs...)
+	for len(work) > 0 {
+		blk := work[len(work)-1]
+		work = work[:len(work)-1]
+		if seen[blk] || blk == b.Block() {
+			continue
+		}
+		seen[blk] = true
+		if blk == a.Block() {
+			return false // came around the loop without meeting b
+		}
+		if len(blk.Succs) == 0 {
+			if _, isRet := blk.Instrs[len(blk.Instrs)-1].(*ssa.Return); isRet {
+				// leaving the function after the append without merging: only acceptable on error returns
+				r := blk.Instrs[len(blk.Instrs)-1].(*ssa.Return)
+				if !provablyNonNilErr(r) {
+					return false
+				}
+			}
+			continue
+		}
+		work = append(work, blk.Succs...)
+	}
+	return true
 }
